@@ -24,6 +24,10 @@ pub fn perform_auto_snapshot(
 
     // Load history
     let history_path = state::history_path(project_root);
+    // Hold the update lock across load + push + save (see `snapshot`)
+    let Some(_update_lock) = state::UpdateLock::acquire(&history_path, "history file") else {
+        return;
+    };
     let mut history = TrendHistory::load_or_default(&history_path);
 
     // Check if we should add (respects min_interval_secs)
@@ -43,16 +47,21 @@ pub fn perform_auto_snapshot(
     history.add_with_context(project_stats, git_context.as_ref());
 
     // Save with retention policy applied
-    if let Err(e) = history.save_with_retention(&history_path, &config.trend) {
-        // Log warning but don't fail the check
-        if !quiet {
-            crate::output::print_warning_full(
-                "Auto-snapshot failed to save",
-                Some(&format!("{}: {e}", history_path.display())),
-                None,
-            );
+    match history.save_with_retention(&history_path, &config.trend) {
+        Ok(state::SaveOutcome::Saved) => {}
+        // Abandoned after a lock timeout (already warned about): nothing was recorded
+        Ok(state::SaveOutcome::Skipped) => return,
+        Err(e) => {
+            // Log warning but don't fail the check
+            if !quiet {
+                crate::output::print_warning_full(
+                    "Auto-snapshot failed to save",
+                    Some(&format!("{}: {e}", history_path.display())),
+                    None,
+                );
+            }
+            return;
         }
-        return;
     }
 
     if !quiet {
